@@ -1,5 +1,6 @@
 """C15 - random boards are reproducible, in range and honour their parameters."""
 import itertools
+import shutil
 import os
 import subprocess
 import sys
@@ -392,6 +393,22 @@ def main_refusals():
                     if len(out) < 2:
                         out.append(mk("C15/main-refusal", {"leg": "main-refusal", "params": params}, [repr(e), files], "ValueError, nothing written",
                                       "main() with out-of-range %r: outcome %r, inputs/ contains %r" % (dict(devs), e, files)))
+        # a directory that has no inputs/ yet: a refused call must leave the directory as it found it
+        os.rmdir("inputs")
+        for devs in singles:
+            params = dict(base, force_down=False)
+            params.update(dict(devs))
+            before = sorted(os.listdir("."))
+            e = gen.run_main(**params)
+            n += 1
+            after = sorted(os.listdir("."))
+            if not isinstance(e, ValueError) or after != before:
+                if len(out) < 3:
+                    out.append(mk("C15/main-refusal-writes", {"leg": "main-refusal", "params": params}, [repr(e), after], "ValueError, directory unchanged (%r)" % (before,),
+                                  "main() with out-of-range %r in a directory without inputs/: outcome %r, directory now contains %r" % (dict(devs), e, after)))
+                for extra in set(after) - set(before):
+                    shutil.rmtree(extra, ignore_errors=True)
+        os.mkdir("inputs")
         # and the valid base is accepted
         sc.clear()
         e = gen.run_main(**dict(base, force_down=False))
